@@ -87,6 +87,8 @@ func c01Run(f []string) string {
 		return filterRun(f)
 	case "pipex":
 		return pipexRun(f)
+	case "rdopen":
+		return rdopenRun(f)
 	}
 	if strings.HasPrefix(f[0], "pmut") {
 		return "rejected" // the harness damaged this log itself: no run of the real code produces it
@@ -103,7 +105,8 @@ func c01Gen(r *Rand, tier string) []string {
 	out = append(out, pipeMutGen(r, tier)...)
 	out = append(out, trimGen(NewRand(r.U64()), tier)...)
 	out = append(out, cliGen(NewRand(r.U64()), tier)...)
-	return append(out, pipexGen(NewRand(r.U64()), tier)...)
+	out = append(out, pipexGen(NewRand(r.U64()), tier)...)
+	return append(out, rdopenGen(NewRand(r.U64()), tier)...)
 }
 
 func c01Stats(cases []string) map[string]int {
@@ -121,6 +124,8 @@ func c01Stats(cases []string) map[string]int {
 			}
 		} else if strings.HasPrefix(c, "pipex ") {
 			pipexStats(st, c)
+		} else if strings.HasPrefix(c, "rdopen ") {
+			st["rdopen.cases"]++
 		} else if f0 := strings.Fields(c)[0]; f0 == "summary" || f0 == "hui" || f0 == "flags" || f0 == "filtern" {
 			cliStats(st, c)
 		} else {
